@@ -362,6 +362,8 @@ dt_bizda_t UNREACH___bizda_add_m(dt_bizda_t d, int n) UNREACH_CONTRACT;
 dt_ymcw_t UNREACH___ymcw_add_y(dt_ymcw_t d, int n) UNREACH_CONTRACT;
 dt_bizda_t UNREACH___bizda_add_y(dt_bizda_t d, int n) UNREACH_CONTRACT;
 dt_ywd_t UNREACH___ywd_add_y(dt_ywd_t d, int n) UNREACH_CONTRACT;
+dt_ymd_t UNREACH___ymd_add_y(dt_ymd_t d, int n) UNREACH_CONTRACT;
+dt_ymd_t UNREACH___ymd_add_m(dt_ymd_t d, int n) UNREACH_CONTRACT;
 dt_yd_t UNREACH___yd_add_y(dt_yd_t d, int n) UNREACH_CONTRACT;
 struct dt_d_s UNREACH_dt_dadd_m(struct dt_d_s d, int n) UNREACH_CONTRACT;
 struct dt_d_s UNREACH_dt_dadd_y(struct dt_d_s d, int n) UNREACH_CONTRACT;
